@@ -249,7 +249,7 @@ def run(ctx):
         ax = abs(core.sf(x)) or 1.0
         return rng.choice([0, ax * 1e-6, ax * 0.01, ax * 0.3, ax * 2.5, 0.5])
 
-    n = ctx.scale(20000, 1_000_000) // 2
+    n = ctx.scale(40000, 1_000_000) // 2
     ops = [("add", operator.add), ("sub", operator.sub), ("mul", operator.mul), ("truediv", operator.truediv), ("pow", None)]
     for i in range(n):
         ctx.count("evaluations")
